@@ -183,6 +183,17 @@ def check(ctx, pid="C10", tier=None):
         "rule": "every sequence of length D over the call alphabet, for every profile; plus seeded "
                 "random sequences of length 8 from TLC -simulate",
     }
+    if pid == "C10":
+        try:        # diagnostic: the basic schedules' traces must be THE behaviour of the GenBasic model
+            basic = [t for t in traces if t["cls"] in ("SingleMemory", "SingleDiskCopy", "SingleDiskMove", "None")
+                     and not t.get("ctor")]
+            bv = fw.validate(ctx, basic, module="TraceGenBasic", tag="gb")
+            drift = [fw.describe(t) for t, v in zip(basic, bv) if any(c == "GEN.drift" for c, _, _ in v["viol"])]
+            cov["conformance_drift"] = {"model": "GenBasic (deterministic: same action, outcome and observers at every call)",
+                                        "traces": len(basic), "drifting": len(drift), "examples": drift[:5]}
+        except Exception as ex:
+            cov["conformance_drift"] = {"status": "diagnostic could not be completed",
+                                        "error": f"{type(ex).__name__}: {ex}"[:400]}
     return viols, cov, ["histories longer than the bounds are not explored"]
 
 
